@@ -28,8 +28,22 @@ MUTATORS = ("append", "extend", "insert", "pop", "remove", "sort", "reverse", "c
 INVALIDATORS = ("_invalidate",)
 
 
+def find_local_class(mod, qualname):
+    """ClassDef of a class created inside a function (`f.<locals>.C`, e.g. the mixin returned by
+    `delegate_to_widget_mixin`): descend through function and class bodies by name."""
+    body, node = mod.tree.body, None
+    for part in qualname.split("."):
+        if part == "<locals>":
+            continue
+        node = next((n for n in body if isinstance(n, (ast.ClassDef, ast.FunctionDef)) and n.name == part), None)
+        if node is None:
+            return None
+        body = node.body
+    return node if isinstance(node, ast.ClassDef) else None
+
+
 class ClassInfo:
-    def __init__(self, cls):
+    def __init__(self, cls, local_classes=False):
         self.cls = cls
         self.methods = {}  # name -> (FnRef, role)
         for c in reversed(cls.__mro__):
@@ -37,6 +51,8 @@ class ClassInfo:
             if m is None:
                 continue
             cnode = SRC.find_class(m, c.__qualname__)
+            if cnode is None and local_classes and "<locals>" in c.__qualname__:
+                cnode = find_local_class(m, c.__qualname__)
             if cnode is None:
                 continue
             for fn in SRC._class_body_defs(cnode.body):
@@ -270,3 +286,983 @@ def analyse_class(cls, exempt=None):
         else:
             results.append((key, not bad, f"a normal-exit path writes render state {bad} without calling _invalidate()" if bad else "every path that writes render state invalidates"))
     return results, sorted(rs)
+
+
+# =============================================================================================
+# Dependency registration of container render methods (C06, second family of static obligations)
+# =============================================================================================
+"""
+For a container / decoration class C, `render` resolved through the real MRO (AST re-read from /repo):
+
+  on every normal-exit path of render, the returned canvas DEPENDS ON every child widget whose state the
+  rendering consulted on that path.
+
+consulted(child)  = `child.render / rows / pack / get_cursor_coords / get_pref_col (...)` was called, directly,
+                    through a `self.m(...)` / `super().m(...)` helper (followed path-sensitively, context-insensitively)
+                    or through a nested function.
+depends on(child) = what `CanvasCache.store` will find for the returned canvas:
+                    - an explicit `canv.set_depends([...])` naming the child (this REPLACES everything else, as in
+                      store: `depends_on = getattr(canvas, "depends_on", None)` is consulted first), or
+                    - composition: the canvas is the child's own canvas, or CompositeCanvas(c) / CanvasCombine(l) /
+                      CanvasJoin(l) / CanvasOverlay(a, b) built from canvases that depend on the child (the child
+                      canvas keeps its `widget_info`, which `walk_depends` collects).
+                    A fresh SolidCanvas / TextCanvas / BlankCanvas depends on nothing.
+
+Children are abstracted to GROUPS: the `self.<attr>` a child expression is read from (`original_widget`,
+`header`, `top_w`, `contents`, ...; a leading underscore is dropped so a property and its backing field agree),
+"delegate" for WidgetWrap's `get_delegate(self)`, and "*" for a child of unknown provenance (a local that was not
+bound from `self`). A temporary wrapper widget built around a child (`Filler(self.header, ...)`) stands for it.
+
+Elements of a child collection: inside a `for` loop whose iterable mentions a `self.<attr>` the loop variables
+stand for ONE element (`contents@L<line>`). If the element (or, before the loop, its whole group) was consulted
+and some path through the loop body (fall-through or `continue`) registers no canvas of this element in any
+list / canvas, then the returned canvas must depend on ALL elements explicitly (`set_depends` with a list over the
+whole collection): otherwise the skipped element was consulted without a dependency — the "hidden zero-size
+child" case.
+
+The path enumeration abstracts values away exactly like `path_outcomes` above (both arms of every `if`, zero or
+one iteration of every loop, `try` bodies with and without handlers), with one refinement: a helper that returns
+the constant `None` (or a tuple whose first item is `None`) on some path is correlated with a test
+`x is None` / `x is not None` / `not x` / `x` on the variable bound to that result.
+Over-approximation => a reported path may be infeasible; exemptions needed on the tree are written in the
+contract file with their reason. Under-approximation (stated): child calls made inside property getters and in
+functions of other modules are not seen; GC lifetime of weakly referenced canvases is out of scope.
+"""
+
+CONSULT = ("render", "rows", "pack", "get_cursor_coords", "get_pref_col")
+LEAF_CANVAS = ("SolidCanvas", "TextCanvas", "BlankCanvas")
+COMPOSE_ONE = ("CompositeCanvas",)
+COMPOSE_LIST = ("CanvasCombine", "CanvasJoin")
+COMPOSE_ARGS = ("CanvasOverlay",)
+LIST_ADD = ("append", "extend", "insert")
+GROUP_ALIAS = {"w": "delegate", "widget_list": "contents", "focus": "contents", "focus_item": "contents", "item_types": "contents"}
+
+_NONE = ("none",)
+_VAL = ("val",)  # some value that is not None
+PASS_THROUGH = ("reversed", "list", "tuple", "sorted", "enumerate", "zip", "iter")
+
+
+def _group_name(attr):
+    g = attr.lstrip("_")
+    return GROUP_ALIAS.get(g, g)
+
+
+def _callee_name(f):
+    """Plain or module-qualified name of a called constructor: CompositeCanvas / canvas.CompositeCanvas."""
+    if isinstance(f, ast.Name):
+        return f.id
+    if isinstance(f, ast.Attribute) and isinstance(f.value, ast.Name) and f.value.id in ("canvas", "urwid"):
+        return f.attr
+    return None
+
+
+class _DState:
+    __slots__ = ("env", "consulted", "need_all", "fns", "_line")
+
+    def __init__(self, env=None, consulted=frozenset(), need_all=frozenset(), fns=None):
+        self._line = None
+        self.env = dict(env or {})
+        self.consulted = frozenset(consulted)
+        self.need_all = frozenset(need_all)
+        self.fns = dict(fns or {})
+
+    def copy(self):
+        return _DState(self.env, self.consulted, self.need_all, self.fns)
+
+    def key(self):
+        return (frozenset(self.env.items()), self.consulted, self.need_all, frozenset(self.fns))
+
+
+def _dedupe(states):
+    seen, out = set(), []
+    for s in states:
+        k = s.key()
+        if k not in seen:
+            seen.add(k)
+            out.append(s)
+    return out
+
+
+class DepAnalysis:
+    """Path-sensitive dependency analysis of one class (see the comment block above)."""
+
+    MAX_STATES = 4000
+
+    def __init__(self, cls):
+        self.cls = cls
+        self.info = ClassInfo(cls, local_classes=True)
+        self.memo = {}
+        self.active = set()
+        self.violations = []  # (line, kind, groups)
+        self.refs = {}
+        self.returns_seen = 0
+
+    # ---- child / value abstraction
+    def child_group(self, e, st, me):
+        """Group of a child-widget expression, or None if the expression does not look like one."""
+        if isinstance(e, ast.Name):
+            v = st.env.get(e.id)
+            if v and v[0] == "child":
+                return v[1]
+            return None
+        if isinstance(e, ast.Call):
+            nm = _callee_name(e.func)
+            if nm == "get_delegate":
+                return "delegate"
+            if nm and nm[:1].isupper():
+                for a in list(e.args) + [k.value for k in e.keywords]:
+                    g = self.child_group(a, st, me)
+                    if g:
+                        return g  # a temporary wrapper around a child stands for the child
+                return None
+        for n in ast.walk(e):
+            if isinstance(n, ast.Attribute) and isinstance(n.value, ast.Name) and n.value.id == me:
+                if (n.attr, "function") in self.info.methods:
+                    continue
+                return _group_name(n.attr)
+            if isinstance(n, ast.Name):
+                v = st.env.get(n.id)
+                if v and v[0] == "child":
+                    return v[1]
+        return None
+
+    @staticmethod
+    def deps_of(v):
+        if not v:
+            return frozenset()
+        if v[0] == "canv":
+            return v[1]
+        if v[0] == "list":
+            return v[1]
+        if v[0] == "tuple":
+            out = frozenset()
+            for x in v[1]:
+                out |= DepAnalysis.deps_of(x)
+            return out
+        return frozenset()
+
+    @staticmethod
+    def kids_of(v):
+        if not v:
+            return frozenset()
+        if v[0] == "child":
+            return frozenset([v[1]])
+        if v[0] == "list":
+            return v[2]
+        if v[0] == "tuple":
+            out = frozenset()
+            for x in v[1]:
+                out |= DepAnalysis.kids_of(x)
+            return out
+        return frozenset()
+
+    # ---- expressions: returns list of (state, value)
+    def ev(self, e, st, me, ref):
+        if e is None:
+            return [(st, None)]
+        if isinstance(e, ast.Constant):
+            return [(st, _NONE if e.value is None else _VAL)]
+        if isinstance(e, ast.Name):
+            return [(st, st.env.get(e.id))]
+        if isinstance(e, ast.NamedExpr):
+            out = []
+            for s, v in self.ev(e.value, st, me, ref):
+                s = s.copy()
+                self.bind(e.target, v, s)
+                out.append((s, v))
+            return out
+        if isinstance(e, (ast.Tuple, ast.List)):
+            res = [(st, [])]
+            for x in e.elts:
+                inner = x.value if isinstance(x, ast.Starred) else x
+                nxt = []
+                for s, acc in res:
+                    for s2, v in self.ev(inner, s, me, ref):
+                        if v is None:
+                            g = self.child_group(inner, s2, me) if isinstance(inner, (ast.Attribute, ast.Subscript)) else None
+                            v = ("child", g) if g else None
+                        nxt.append((s2, acc + [v]))
+                res = nxt
+            out = []
+            for s, acc in res:
+                if isinstance(e, ast.List):
+                    d, k = frozenset(), frozenset()
+                    for v in acc:
+                        d |= self.deps_of(v)
+                        k |= self.kids_of(v)
+                    out.append((s, ("list", d, k, len(acc) == 0)))
+                else:
+                    out.append((s, ("tuple", tuple(acc))))
+            return out
+        if isinstance(e, ast.Dict) and not e.keys:
+            return [(st, ("list", frozenset(), frozenset(), True))]  # an empty dict: an accumulator like a list
+        if isinstance(e, (ast.ListComp, ast.GeneratorExp, ast.SetComp)):
+            s = st.copy()
+            whole = None
+            for g in e.generators:
+                grp = self.child_group(g.iter, s, me)
+                for s_, _v in self.ev(g.iter, s, me, ref):
+                    s = s_
+                if grp and not g.ifs:
+                    whole = grp
+                for n in ast.walk(g.target):
+                    if isinstance(n, ast.Name):
+                        s.env[n.id] = ("child", grp or "*") if grp or True else None
+            outs = []
+            for s2, v in self.ev(e.elt, s, me, ref):
+                d, k = self.deps_of(v), self.kids_of(v)
+                if whole:
+                    # an unfiltered comprehension over the whole collection names ALL its elements
+                    k = frozenset((x + ":all") if x == whole else x for x in k)
+                    d = frozenset((x + ":all") if x == whole else x for x in d)
+                s3 = st.copy()
+                s3.consulted, s3.need_all = s2.consulted, s2.need_all
+                outs.append((s3, ("list", d, k, None)))
+            return outs
+        if isinstance(e, ast.IfExp):
+            out = []
+            for s, _t in self.ev(e.test, st, me, ref):
+                out += self.ev(e.body, s.copy(), me, ref) + self.ev(e.orelse, s.copy(), me, ref)
+            return out
+        if isinstance(e, ast.BoolOp):
+            # short-circuit: the operands evaluated are a prefix; value = last evaluated
+            out, cur = [], [(st, None)]
+            for x in e.values:
+                nxt = []
+                for s, _v in cur:
+                    nxt += self.ev(x, s.copy(), me, ref)
+                out += nxt
+                cur = nxt
+            return out
+        if isinstance(e, ast.Call):
+            return self.ev_call(e, st, me, ref)
+        if isinstance(e, ast.Attribute):
+            res = self.ev(e.value, st, me, ref) if not isinstance(e.value, ast.Name) else [(st, None)]
+            return [(s, None) for s, _ in res]
+        if isinstance(e, ast.Subscript):
+            out = []
+            for s, v in self.ev(e.value, st, me, ref):
+                for s2, _i in self.ev(e.slice, s, me, ref):
+                    if v and v[0] == "list":
+                        out.append((s2, ("list", v[1], v[2], None)))
+                    elif v and v[0] == "tuple" and isinstance(e.slice, ast.Constant) and isinstance(e.slice.value, int) and -len(v[1]) <= e.slice.value < len(v[1]):
+                        out.append((s2, v[1][e.slice.value]))
+                    else:
+                        out.append((s2, None))
+            return out
+        # any other expression: evaluate sub-expressions for their calls
+        res = [(st, None)]
+        for c in ast.iter_child_nodes(e):
+            if isinstance(c, ast.expr):
+                nxt = []
+                for s, _ in res:
+                    nxt += [(s2, None) for s2, _v in self.ev(c, s, me, ref)]
+                res = nxt
+        return res
+
+    def ev_args(self, call, st, me, ref):
+        res = [(st, [])]
+        for a in list(call.args) + [k.value for k in call.keywords]:
+            inner = a.value if isinstance(a, ast.Starred) else a
+            nxt = []
+            for s, acc in res:
+                for s2, v in self.ev(inner, s, me, ref):
+                    nxt.append((s2, acc + [v]))
+            res = nxt
+        return res
+
+    def ev_call(self, e, st, me, ref):
+        f = e.func
+        nm = _callee_name(f)
+        out = []
+        # canvas constructors
+        if nm in LEAF_CANVAS:
+            return [(s, ("canv", frozenset())) for s, _ in self.ev_args(e, st, me, ref)]
+        if nm in COMPOSE_ONE or nm in COMPOSE_LIST or nm in COMPOSE_ARGS:
+            for s, vals in self.ev_args(e, st, me, ref):
+                d = frozenset()
+                for v in vals:
+                    d |= self.deps_of(v)
+                out.append((s, ("canv", d)))
+            return out
+        if nm in PASS_THROUGH:
+            for s, vals in self.ev_args(e, st, me, ref):
+                d, k = frozenset(), frozenset()
+                for v in vals:
+                    d |= self.deps_of(v)
+                    k |= self.kids_of(v)
+                out.append((s, ("list", d, k, None) if (d or k) else _VAL))
+            return out
+        if nm and nm[:1].isupper() and isinstance(f, ast.Name) and self.child_group(e, st, me) is None:
+            # some other constructor (a NamedTuple of results ...): a value that is not None; its arguments are kept
+            return [(s, ("tuple", tuple(v if v is not None else _VAL for v in vals))) for s, vals in self.ev_args(e, st, me, ref)]
+        # nested function / local callable
+        if isinstance(f, ast.Name) and f.id in st.fns:
+            for s, _vals in self.ev_args(e, st, me, ref):
+                out += self.call_nested(st.fns[f.id], s, me, ref)
+            return out
+        if isinstance(f, ast.Attribute):
+            recv = f.value
+            is_self = isinstance(recv, ast.Name) and recv.id == me
+            is_super = isinstance(recv, ast.Call) and isinstance(recv.func, ast.Name) and recv.func.id == "super"
+            if is_self or is_super:
+                for s, vals in self.ev_args(e, st, me, ref):
+                    npos = len(e.args)
+                    out += self.call_method(f.attr, is_super, s, ref, vals[:npos], {k.arg: v for k, v in zip(e.keywords, vals[npos:]) if k.arg})
+                return out
+            if (f.attr in LIST_ADD and isinstance(recv, ast.Call) and isinstance(recv.func, ast.Attribute) and recv.func.attr == "setdefault"
+                    and isinstance(recv.func.value, ast.Name) and (st.env.get(recv.func.value.id) or (None,))[0] == "list"):
+                # d.setdefault(key, []).append(x): the dict of lists accumulates like one list
+                nm_ = recv.func.value.id
+                for s2, vals in self.ev_args(e, st, me, ref):
+                    s2 = s2.copy()
+                    cur = s2.env[nm_]
+                    d, k = cur[1], cur[2]
+                    for v in vals:
+                        d |= self.deps_of(v)
+                        k |= self.kids_of(v)
+                    s2.env[nm_] = ("list", d, k, False)
+                    out.append((s2, None))
+                return out
+            # receiver evaluation (may itself contain calls)
+            rres = self.ev(recv, st, me, ref)
+            for s, rv in rres:
+                for s2, vals in self.ev_args(e, s, me, ref):
+                    s2 = s2.copy()
+                    if rv and rv[0] == "canv" and f.attr == "set_depends":
+                        k = frozenset()
+                        for v in vals:
+                            k |= self.kids_of(v)
+                        tgt = recv.id if isinstance(recv, ast.Name) else None
+                        if tgt:
+                            s2.env[tgt] = ("canv", k)
+                        out.append((s2, None))
+                        continue
+                    if rv and rv[0] == "list" and f.attr in LIST_ADD and isinstance(recv, ast.Name):
+                        d, k = rv[1], rv[2]
+                        for v in vals:
+                            d |= self.deps_of(v)
+                            k |= self.kids_of(v)
+                        for a in e.args:
+                            g = self.child_group(a, s2, me) if isinstance(a, (ast.Attribute, ast.Name)) else None
+                            if g:
+                                k |= {g}
+                        s2.env[recv.id] = ("list", d, k, False)
+                        out.append((s2, None))
+                        continue
+                    if f.attr in CONSULT and not (rv and rv[0] in ("canv", "list", "tuple")):
+                        g = self.child_group(recv, s2, me)
+                        if g is None:
+                            g = "*"
+                        s2.consulted = s2.consulted | {g}
+                        out.append((s2, ("canv", frozenset([g])) if f.attr == "render" else None))
+                        continue
+                    out.append((s2, None))
+            return out
+        # any other call: arguments only
+        return [(s, None) for s, _ in self.ev_args(e, st, me, ref)]
+
+    # ---- calls into the class
+    def call_method(self, name, is_super, st, ref, args=(), kwargs=None):
+        if is_super:
+            target = None
+            defcls = (getattr(ref, "cls_qual", None) or "").split(".<")[0]
+            mro = list(self.cls.__mro__)
+            idx = next((i for i, c in enumerate(mro) if c.__qualname__ == defcls), None)
+            if idx is not None:
+                sub = ClassInfo.__new__(ClassInfo)
+                sub.cls, sub.methods = self.cls, {}
+                for c in mro[idx + 1 :]:
+                    ci = self._class_methods(c)
+                    if (name, "function") in ci:
+                        target = ci[(name, "function")]
+                        break
+        else:
+            target = self.info.method(name)
+        if target is None:
+            return [(st, None)]
+        # abstract arguments that matter (canvases, children, lists of them, None) are bound to the parameters
+        a = target.node.args
+        params = [p.arg for p in a.posonlyargs + a.args][1:]
+        binding = {}
+        for pn, v in zip(params, args):
+            if v is not None:
+                binding[pn] = v
+        for k, v in (kwargs or {}).items():
+            if v is not None and (k in params or k in [p.arg for p in a.kwonlyargs]):
+                binding[k] = v
+        outs = self.outcomes(target, binding)
+        res = []
+        for consulted, need_all, rv in outs:
+            s = st.copy()
+            s.consulted |= consulted
+            s.need_all |= need_all
+            res.append((s, rv))
+        return res or []
+
+    def call_nested(self, node, st, me, ref):
+        s0 = st.copy()
+        fall, ret = self.run(node.body, [s0], me, ref, check_elems=True, nested=True)
+        res = []
+        for s, v in ret:
+            s2 = st.copy()
+            s2.consulted, s2.need_all = s.consulted, s.need_all
+            res.append((s2, v))
+        for s in fall:
+            s2 = st.copy()
+            s2.consulted, s2.need_all = s.consulted, s.need_all
+            res.append((s2, _NONE))
+        return res
+
+    def _class_methods(self, c):
+        """(name, role) -> FnRef of the methods defined in the body of one class of the MRO (local classes too)."""
+        cache = self.__dict__.setdefault("_cm", {})
+        if c not in cache:
+            d = {}
+            m = SRC.module_of_real(c.__module__)
+            cnode = None
+            if m is not None:
+                cnode = SRC.find_class(m, c.__qualname__) or (find_local_class(m, c.__qualname__) if "<locals>" in c.__qualname__ else None)
+            if cnode is not None:
+                for fn in SRC._class_body_defs(cnode.body):
+                    if SRC._is_overload(fn):
+                        continue
+                    decs = [ast.unparse(x) for x in fn.decorator_list]
+                    role = "setter" if any(x == f"{fn.name}.setter" for x in decs) else ("getter" if any(x in ("property", "functools.cached_property") for x in decs) else "function")
+                    d[(fn.name, role)] = SRC.FnRef(m, fn, f"{c.__qualname__}.{fn.name}", c.__qualname__, role)
+            cache[c] = d
+        return cache[c]
+
+    def outcomes(self, ref, binding=None):
+        """Per-path outcomes of a method: set of (consulted groups, need_all groups, abstract return value)."""
+        binding = binding or {}
+        k = (ref.key, frozenset(binding.items()))
+        if k in self.memo:
+            return self.memo[k]
+        if k in self.active:
+            return {(frozenset(), frozenset(), None)}
+        self.refs[ref.key] = ref
+        self.active.add(k)
+        try:
+            me = _self_name(ref.node)
+            is_render = ref.node.name == "render"
+            fall, ret = self.run(ref.node.body, [_DState(env=binding)], me, ref, check_elems=is_render)
+            outs = set()
+            for s, v in ret:
+                if is_render:
+                    v = self.check_return(s, v, ref, getattr(s, "_line", ref.node.lineno))
+                outs.add((s.consulted, s.need_all if not is_render else frozenset(), self._ret_abs(v)))
+            for s in fall:
+                outs.add((s.consulted, s.need_all, _NONE))
+        finally:
+            self.active.discard(k)
+        self.memo[k] = outs
+        return outs
+
+    @staticmethod
+    def _ret_abs(v):
+        """Keep of a return value what a caller can use: canvas deps, None-ness (also of a tuple's items)."""
+        if not v:
+            return None
+        if v[0] in ("canv", "none", "val"):
+            return v
+        if v[0] == "list":
+            return _VAL
+        if v[0] == "tuple":
+            return ("tuple", tuple(DepAnalysis._ret_abs(x) for x in v[1]))
+        return None
+
+    def check_return(self, st, v, ref, line):
+        """The obligation proper, at one `return` of a render method. Returns the value a caller may assume."""
+        self.returns_seen += 1
+        if v is None or v[0] != "canv":
+            if st.consulted or st.need_all:
+                self.violations.append((ref.qualname, line, "returns a value whose dependencies the analysis cannot see", tuple(sorted(st.consulted))))
+            return v
+        deps = v[1]
+        missing = sorted(g for g in st.consulted if g not in deps and (g + ":all") not in deps)
+        skipped = sorted(g for g in st.need_all if (g + ":all") not in deps)
+        if missing:
+            self.violations.append((ref.qualname, line, "consulted but the returned canvas does not depend on", tuple(missing)))
+        if skipped:
+            self.violations.append((ref.qualname, line, "an element consulted in (or before) the loop is skipped without a dependency; collection", tuple(skipped)))
+        # a caller of this render (super().render) may rely on: the canvas covers what was consulted here
+        return ("canv", deps | st.consulted)
+
+    # ---- binding
+    def bind(self, t, v, st):
+        if isinstance(t, ast.Name):
+            if v is None:
+                st.env.pop(t.id, None)
+            else:
+                st.env[t.id] = v
+        elif isinstance(t, (ast.Tuple, ast.List)):
+            items = v[1] if v and v[0] == "tuple" and len(v[1]) == len(t.elts) else [None] * len(t.elts)
+            for x, y in zip(t.elts, items):
+                self.bind(x, y, st)
+
+    def bind_elem(self, t, grp, st):
+        for n in ast.walk(t):
+            if isinstance(n, ast.Name):
+                st.env[n.id] = ("child", grp)
+
+    # ---- tests with a little value sensitivity (None-ness of a bound result)
+    def split_test(self, test, st, me, ref):
+        """-> (states where the test is true, states where it is false)"""
+        neg_ = False
+        t = test
+        while isinstance(t, ast.UnaryOp) and isinstance(t.op, ast.Not):
+            neg_, t = not neg_, t.operand
+        name, none_when_true = None, None
+        if isinstance(t, ast.Compare) and len(t.ops) == 1 and isinstance(t.left, ast.Name) and isinstance(t.comparators[0], ast.Constant) and t.comparators[0].value is None:
+            if isinstance(t.ops[0], ast.Is):
+                name, none_when_true = t.left.id, True
+            elif isinstance(t.ops[0], ast.IsNot):
+                name, none_when_true = t.left.id, False
+        elif isinstance(t, ast.Name):
+            name, none_when_true = t.id, False  # truthy => not None
+        res = self.ev(test, st, me, ref)
+        tr, fa = [], []
+        for s, _v in res:
+            known = s.env.get(name) if name else None
+            if name and known is not None:
+                is_none = known == _NONE
+                truth = (is_none == none_when_true)
+                if isinstance(t, ast.Name) and not is_none:
+                    truth = None  # a non-None value may still be falsy: both arms, unless more is known
+                    if known[0] in ("canv", "child"):
+                        truth = True
+                    elif known[0] == "tuple":
+                        truth = len(known[1]) > 0
+                    elif known[0] == "list" and known[3] is not None:
+                        truth = not known[3]
+                if truth is not None:
+                    truth = truth != neg_
+                    (tr if truth else fa).append(s)
+                    continue
+            tr.append(s.copy())
+            fa.append(s.copy())
+        return tr, fa
+
+    # ---- statements
+    def run(self, stmts, states, me, ref, check_elems=False, nested=False):
+        """-> (fall-through states, [(state, value)] returned); break/continue states are kept on self._loop"""
+        returned = []
+        for s in stmts:
+            states = _dedupe(states)
+            if len(states) > self.MAX_STATES:
+                raise RuntimeError(f"dependency analysis: more than {self.MAX_STATES} path states in {ref.qualname}")
+            if not states:
+                break
+            if isinstance(s, ast.Assign):
+                nxt = []
+                for st in states:
+                    for s2, v in self.ev(s.value, st, me, ref):
+                        s2 = s2.copy()
+                        if v is None:
+                            g = self.child_group(s.value, s2, me) if isinstance(s.value, (ast.Attribute, ast.Subscript, ast.Name)) or (isinstance(s.value, ast.Call) and _callee_name(s.value.func) == "get_delegate") else None
+                            if g:
+                                v = ("child", g)
+                        for t in s.targets:
+                            if isinstance(t, ast.Subscript) and isinstance(t.value, ast.Name) and (s2.env.get(t.value.id) or (None,))[0] == "list":
+                                cur = s2.env[t.value.id]
+                                s2.env[t.value.id] = ("list", cur[1] | self.deps_of(v), cur[2] | self.kids_of(v), False)
+                            else:
+                                self.bind(t, v, s2)
+                        nxt.append(s2)
+                states = nxt
+            elif isinstance(s, ast.AnnAssign):
+                if s.value is not None:
+                    nxt = []
+                    for st in states:
+                        for s2, v in self.ev(s.value, st, me, ref):
+                            s2 = s2.copy()
+                            self.bind(s.target, v, s2)
+                            nxt.append(s2)
+                    states = nxt
+            elif isinstance(s, ast.AugAssign):
+                nxt = []
+                for st in states:
+                    for s2, v in self.ev(s.value, st, me, ref):
+                        s2 = s2.copy()
+                        if isinstance(s.target, ast.Name):
+                            cur = s2.env.get(s.target.id)
+                            if cur and cur[0] == "list":
+                                s2.env[s.target.id] = ("list", cur[1] | self.deps_of(v), cur[2] | self.kids_of(v), False if (v and v[0] == "list" and v[3] is False) else (cur[3] if cur[3] is False else None))
+                        nxt.append(s2)
+                states = nxt
+            elif isinstance(s, ast.Expr):
+                nxt = []
+                for st in states:
+                    nxt += [s2 for s2, _v in self.ev(s.value, st, me, ref)]
+                states = nxt
+            elif isinstance(s, ast.Return):
+                for st in states:
+                    for s2, v in self.ev(s.value, st, me, ref):
+                        if s.value is not None and v is None:
+                            v = None
+                        if s.value is None:
+                            v = _NONE
+                        returned.append((s2.copy(), v, s.lineno))
+                states = []
+            elif isinstance(s, ast.Raise):
+                states = []
+            elif isinstance(s, ast.If):
+                tr, fa = [], []
+                for st in states:
+                    a, b = self.split_test(s.test, st, me, ref)
+                    tr += a
+                    fa += b
+                fa_, ra = self.run(s.body, tr, me, ref, check_elems, nested)
+                fb_, rb = self.run(s.orelse, fa, me, ref, check_elems, nested)
+                returned += [(x, v, None) for x, v in ra] + [(x, v, None) for x, v in rb]
+                states = fa_ + fb_
+            elif isinstance(s, (ast.For, ast.While)):
+                states, r = self.run_loop(s, states, me, ref, check_elems, nested)
+                returned += [(x, v, None) for x, v in r]
+            elif isinstance(s, ast.Try):
+                a, ra = self.run(s.body, [x.copy() for x in states], me, ref, check_elems, nested)
+                returned += [(x, v, None) for x, v in ra]
+                outs = list(a)
+                for h in s.handlers:
+                    hb, rh = self.run(h.body, [x.copy() for x in states] + [x.copy() for x in a], me, ref, check_elems, nested)
+                    returned += [(x, v, None) for x, v in rh]
+                    outs += hb
+                if s.orelse:
+                    e_, re_ = self.run(s.orelse, [x.copy() for x in a], me, ref, check_elems, nested)
+                    returned += [(x, v, None) for x, v in re_]
+                    outs = [x for x in outs if x not in a] + e_
+                if s.finalbody:
+                    outs, rf = self.run(s.finalbody, outs, me, ref, check_elems, nested)
+                    returned += [(x, v, None) for x, v in rf]
+                states = outs
+            elif isinstance(s, ast.With):
+                nxt = []
+                for st in states:
+                    cur = [st]
+                    for it in s.items:
+                        cur = [s2 for c in cur for s2, _v in self.ev(it.context_expr, c, me, ref)]
+                    nxt += cur
+                a, ra = self.run(s.body, nxt, me, ref, check_elems, nested)
+                returned += [(x, v, None) for x, v in ra]
+                states = a
+            elif isinstance(s, ast.FunctionDef):
+                for st in states:
+                    st.fns[s.name] = s
+            elif isinstance(s, (ast.Break, ast.Continue)):
+                self._loop_exits[-1]["break" if isinstance(s, ast.Break) else "continue"] += states
+                states = []
+            elif isinstance(s, (ast.Pass, ast.Import, ast.ImportFrom, ast.Global, ast.Nonlocal, ast.Delete)):
+                pass
+            elif isinstance(s, ast.Assert):
+                nxt = []
+                for st in states:
+                    nxt += [s2 for s2, _v in self.ev(s.test, st, me, ref)]
+                states = nxt
+            else:
+                nxt = []
+                for st in states:
+                    cur = [st]
+                    for n in ast.iter_child_nodes(s):
+                        if isinstance(n, ast.expr):
+                            cur = [s2 for c in cur for s2, _v in self.ev(n, c, me, ref)]
+                    nxt += cur
+                states = nxt
+        # normalise the returned triples: remember the line of the `return` statement on the state
+        out_ret = []
+        for item in returned:
+            st, v, line = item
+            if line is not None:
+                st._line = line
+            out_ret.append((st, v))
+        return _dedupe(states), out_ret
+
+    _loop_exits: list = []
+
+    def run_loop(self, s, states, me, ref, check_elems, nested):
+        """zero, one or (for loops of a render method) two iterations; in a render method, the per-element
+        registration check (see the comment block above): two iterations let "one element skipped, another one
+        rendered" be seen as one path."""
+        after, returned = [], []
+        rounds = 2 if (check_elems and isinstance(s, ast.For)) else 1
+        for st in states:
+            pre = self.ev(s.iter if isinstance(s, ast.For) else s.test, st, me, ref)
+            for s0, _v in pre:
+                after.append(s0.copy())  # zero iterations
+                cur = [s0]
+                itv = s0.env.get(s.iter.id) if isinstance(s, ast.For) and isinstance(s.iter, ast.Name) else None
+                if itv and itv[0] == "list" and itv[3] is True:
+                    continue  # a list known to be empty on this path: no iteration
+                for _round in range(rounds):
+                    nxt = []
+                    for c in cur:
+                        ends, r = self.one_iteration(s, c, me, ref, check_elems, nested)
+                        returned += r
+                        for x, broke in ends:
+                            if s.orelse and not broke:
+                                f2, r2 = self.run(s.orelse, [x.copy()], me, ref, check_elems, nested)
+                                returned += r2
+                                after += f2
+                            else:
+                                after.append(x)
+                            if not broke:
+                                nxt.append(x)
+                    cur = _dedupe(nxt)
+                    if len(cur) > 64:
+                        break
+        return _dedupe(after), returned
+
+    def one_iteration(self, s, s0, me, ref, check_elems, nested):
+        """-> ([(state at the end of the iteration, left by break?)], returned)"""
+        body_st = s0.copy()
+        elem = None
+        if isinstance(s, ast.For):
+            grp = self.child_group(s.iter, s0, me) if not isinstance(s.iter, ast.Name) else None
+            if grp is None:
+                # a local list (possibly wrapped: enumerate(l), reversed(l), zip(l, ...)) that holds children
+                for n in ast.walk(s.iter):
+                    v = s0.env.get(n.id) if isinstance(n, ast.Name) else None
+                    if v and v[0] == "list" and len({k.split(":")[0] for k in v[2]}) == 1:
+                        self.bind_elem(s.target, next(iter(v[2])).split(":")[0], body_st)
+                        break
+                else:
+                    for n in ast.walk(s.target):
+                        if isinstance(n, ast.Name):
+                            body_st.env.pop(n.id, None)
+            elif any(isinstance(n, ast.Attribute) and isinstance(n.value, ast.Name) and n.value.id == me for n in ast.walk(s.iter)):
+                elem = f"{grp}@L{s.lineno}"  # elements of a collection of self: tracked one by one
+                self.bind_elem(s.target, elem, body_st)
+            else:
+                self.bind_elem(s.target, grp, body_st)  # elements of a child's collection: covered through the child
+        self._loop_exits.append({"break": [], "continue": []})
+        try:
+            fall, r = self.run(s.body, [body_st], me, ref, check_elems, nested)
+        finally:
+            ex = self._loop_exits.pop()
+        grp = elem.split("@")[0] if elem else None
+        ret = []
+        for x, v in r:
+            if elem:
+                x.consulted = frozenset(grp if g == elem else g for g in x.consulted)
+                v = self._rename(v, elem, grp)
+            ret.append((x, v))
+        ends = []
+        for x, broke in [(x, False) for x in fall + ex["continue"]] + [(x, True) for x in ex["break"]]:
+            x = x.copy()
+            if elem:
+                if check_elems and not broke:
+                    registered = any(elem in self.deps_of(v) for v in x.env.values())
+                    consulted = elem in x.consulted or grp in x.consulted
+                    if consulted and not registered:
+                        x.need_all = x.need_all | {grp}
+                # leave the iteration: the element becomes its group
+                x.consulted = frozenset(grp if g == elem else g for g in x.consulted)
+                for k, v in list(x.env.items()):
+                    x.env[k] = self._rename(v, elem, grp)
+            ends.append((x, broke))
+        return ends, ret
+
+    @staticmethod
+    def _rename(v, old, new):
+        if not v:
+            return v
+        if v[0] == "child":
+            return ("child", new) if v[1] == old else v
+        if v[0] == "canv":
+            return ("canv", frozenset(new if g == old else g for g in v[1]))
+        if v[0] == "list":
+            return ("list", frozenset(new if g == old else g for g in v[1]), frozenset(new if g == old else g for g in v[2]), v[3])
+        if v[0] == "tuple":
+            return ("tuple", tuple(DepAnalysis._rename(x, old, new) for x in v[1]))
+        return v
+
+
+def analyse_render_deps(cls, exempt=None):
+    """Obligation `<Class>.render`: every normal-exit path returns a canvas that depends on every child consulted.
+    Returns (results [(label, ok, detail)], summary)."""
+    exempt = exempt or {}
+    an = DepAnalysis(cls)
+    ref = an.info.method("render")
+    key = f"{cls.__name__}.render"
+    if ref is None:
+        return [(key, False, "no render method found in the repository MRO")], []
+    an.outcomes(ref)
+    viol = sorted(set(an.violations))
+    groups = sorted({g for outs in an.memo.values() for (c, _n, _v) in outs for g in c})
+    kept, waived = [], []
+    def ordinal(qual, line):
+        """Ordinal of the `return` statement among the returns of its method (stable under edits elsewhere)."""
+        for (k, _b) in an.memo:
+            r = an.refs.get(k)
+            if r is not None and r.qualname == qual:
+                lines = sorted(n.lineno for n in ast.walk(r.node) if isinstance(n, ast.Return))
+                return lines.index(line) if line in lines else -1
+        return -1
+
+    for v in viol:
+        ek = f"{cls.__name__}.render@{v[0]}#ret{ordinal(v[0], v[1])}:{'+'.join(v[3])}"
+        (waived if ek in exempt else kept).append((v, ek))
+    results = []
+    if kept:
+        detail = "; ".join(f"{q} line {ln}: {kind} {list(g)} [exemption key {ek}]" for (q, ln, kind, g), ek in kept)
+        results.append((key, False, detail))
+    else:
+        d = f"defined in {ref.qualname}; {an.returns_seen} return path states; children consulted: {groups or 'none'}"
+        if waived:
+            d += "; EXEMPT: " + "; ".join(f"{ek} ({exempt[ek]})" for _v, ek in waived)
+        results.append((key, True, d))
+    return results, groups
+
+
+# =============================================================================================
+# Finalized canvases refuse mutation (C06, third family of static obligations)
+# =============================================================================================
+"""
+For a canvas class (urwid/canvas.py), every method other than __init__: each statement that WRITES the canvas
+(assignment / augmented assignment / del of `self.X` or `self.X[...]`, an in-place container method on `self.X`, a
+call of another `self.` method that itself writes without being guarded) is reached, on every path, only after the
+guard
+        if self.widget_info [and self.cacheable]:
+            raise self._finalized_error
+has been passed — so on a finalized (cacheable) canvas the method raises before it changes anything:
+"canvases handed out by the cache are never modified afterwards". `Canvas.finalize` itself has the guard, hence
+"finalize twice raises". Path enumeration as above (value-insensitive).
+"""
+
+INPLACE = ("append", "extend", "insert", "pop", "remove", "clear", "update", "sort", "reverse", "setdefault", "popitem", "__setitem__", "__delitem__")
+
+
+def _is_guard(node, me):
+    if not isinstance(node, ast.If) or node.orelse:
+        return False
+    names = {n.attr for n in ast.walk(node.test) if isinstance(n, ast.Attribute) and isinstance(n.value, ast.Name) and n.value.id == me}
+    if "widget_info" not in names or not names <= {"widget_info", "cacheable"}:
+        return False
+    if any(isinstance(n, (ast.Not, ast.Or)) for n in ast.walk(node.test)):
+        return False
+    last = node.body[-1] if node.body else None
+    return isinstance(last, ast.Raise) and last.exc is not None and "_finalized_error" in ast.unparse(last.exc) and len(node.body) == 1
+
+
+def analyse_finalized_guard(cls):
+    """-> [(label, ok, detail)] one obligation per method of `cls`'s own body that writes the canvas."""
+    info = ClassInfo(cls)
+    m = SRC.module_of_real(cls.__module__)
+    cnode = SRC.find_class(m, cls.__qualname__)
+    own = [fn for fn in SRC._class_body_defs(cnode.body) if not SRC._is_overload(fn)]
+    memo: dict = {}
+
+    def unguarded_writes(ref, depth=0):
+        """list of (line, what) of writes reachable without having passed the guard"""
+        if ref.key in memo:
+            return memo[ref.key]
+        memo[ref.key] = []  # recursion guard
+        me = _self_name(ref.node)
+        found = []
+
+        def writes_in_expr(e):
+            out = []
+            for n in ast.walk(e):
+                if isinstance(n, ast.Call) and isinstance(n.func, ast.Attribute):
+                    f = n.func
+                    if f.attr in INPLACE and any(isinstance(x, ast.Name) and x.id == me for x in ast.walk(f.value)) and not (isinstance(f.value, ast.Name)):
+                        out.append((n.lineno, f"in-place {ast.unparse(f)[:40]}"))
+                    elif isinstance(f.value, ast.Name) and f.value.id == me:
+                        callee = info.method(f.attr) or info.methods.get((f.attr, "setter"))
+                        if callee is not None and depth < 6:
+                            sub = unguarded_writes(callee, depth + 1)
+                            if sub:
+                                out.append((n.lineno, f"calls self.{f.attr}() which writes unguarded at line {sub[0][0]}"))
+            return out
+
+        def target_writes(t):
+            if isinstance(t, (ast.Tuple, ast.List)):
+                return [w for e in t.elts for w in target_writes(e)]
+            base = t
+            while isinstance(base, ast.Subscript):
+                base = base.value
+            if isinstance(base, ast.Attribute) and any(isinstance(x, ast.Name) and x.id == me for x in ast.walk(base)):
+                if isinstance(t, ast.Attribute) and (t.attr, "setter") in info.methods:
+                    sub = unguarded_writes(info.methods[(t.attr, "setter")], depth + 1) if depth < 6 else []
+                    return [(t.lineno, f"sets property {t.attr} whose setter writes unguarded")] if sub else []
+                return [(t.lineno, f"writes {ast.unparse(t)[:40]}")]
+            return []
+
+        def run(stmts, guarded):
+            """guarded: set of booleans possible at this point; returns the set after (empty = no fall-through)"""
+            for s in stmts:
+                if not guarded:
+                    return guarded
+                if _is_guard(s, me):
+                    guarded = {True}
+                    continue
+                ws = []
+                if isinstance(s, (ast.Assign, ast.AugAssign, ast.AnnAssign)):
+                    if getattr(s, "value", None) is not None:
+                        ws += writes_in_expr(s.value)
+                    for t in (s.targets if isinstance(s, ast.Assign) else [s.target]):
+                        ws += target_writes(t)
+                elif isinstance(s, ast.Delete):
+                    for t in s.targets:
+                        ws += target_writes(t)
+                elif isinstance(s, (ast.Expr, ast.Return)):
+                    if s.value is not None:
+                        ws += writes_in_expr(s.value)
+                elif isinstance(s, ast.If):
+                    ws += writes_in_expr(s.test)
+                elif isinstance(s, (ast.For, ast.While)):
+                    ws += writes_in_expr(s.iter if isinstance(s, ast.For) else s.test)
+                elif isinstance(s, ast.With):
+                    for it in s.items:
+                        ws += writes_in_expr(it.context_expr)
+                if ws and False in guarded:
+                    found.extend(ws)
+                if isinstance(s, (ast.Return, ast.Raise)):
+                    return set()
+                if isinstance(s, ast.If):
+                    guarded = run(s.body, set(guarded)) | run(s.orelse, set(guarded))
+                elif isinstance(s, (ast.For, ast.While)):
+                    guarded = guarded | run(s.body, set(guarded)) | run(s.orelse, set(guarded))
+                elif isinstance(s, ast.With):
+                    guarded = run(s.body, set(guarded))
+                elif isinstance(s, ast.Try):
+                    a = run(s.body, set(guarded))
+                    out = set(a)
+                    for h in s.handlers:
+                        out |= run(h.body, set(guarded) | a)
+                    out |= run(s.orelse, set(a)) if s.orelse else set()
+                    guarded = run(s.finalbody, out) if s.finalbody else out
+            return guarded
+
+        run(ref.node.body, {False})
+        memo[ref.key] = sorted(set(found))
+        return memo[ref.key]
+
+    def writes_anything(fn):
+        me = _self_name(fn)
+        for n in ast.walk(fn):
+            if isinstance(n, (ast.Assign, ast.AugAssign, ast.AnnAssign, ast.Delete)):
+                for t in (n.targets if isinstance(n, (ast.Assign, ast.Delete)) else [n.target]):
+                    b = t
+                    while isinstance(b, ast.Subscript):
+                        b = b.value
+                    if isinstance(b, ast.Attribute) and any(isinstance(x, ast.Name) and x.id == me for x in ast.walk(b)):
+                        return True
+            if isinstance(n, ast.Call) and isinstance(n.func, ast.Attribute) and (n.func.attr in INPLACE or (isinstance(n.func.value, ast.Name) and n.func.value.id == me)):
+                if any(isinstance(x, ast.Name) and x.id == me for x in ast.walk(n.func.value)):
+                    return True
+        return False
+
+    results = []
+    for fn in own:
+        if fn.name.startswith("_") or any(ast.unparse(d) in ("staticmethod", "classmethod") for d in fn.decorator_list):
+            continue  # private helpers have no obligation of their own: a call to one counts as a write at the call site
+        if not fn.args.args or not writes_anything(fn):
+            continue
+        decs = [ast.unparse(d) for d in fn.decorator_list]
+        role = "setter" if any(d == f"{fn.name}.setter" for d in decs) else ("getter" if any(d in ("property", "functools.cached_property") for d in decs) else "function")
+        ref = SRC.FnRef(m, fn, f"{cls.__qualname__}.{fn.name}", cls.__qualname__, role)
+        bad = unguarded_writes(ref)
+        label = f"{cls.__name__}.{fn.name}" + (".setter" if role == "setter" else "")
+        results.append((label, not bad, "; ".join(f"line {ln}: {what}" for ln, what in bad) if bad else "every write is behind the finalized guard"))
+    return results, []
